@@ -10,6 +10,8 @@ from sim.checks.c09 import sig
 
 from sismic import exceptions as sx
 from sismic.interpreter import Interpreter
+from sismic.clock import SimulatedClock
+from sismic.clock import clock as clockmod
 from sismic.model import Event, Statechart, CompoundState, BasicState, FinalState, Transition
 
 ID = 'C18'
@@ -19,13 +21,13 @@ BUDGET = {'quick': 25, 'thorough': 300}
 BLOCK = 8
 STREAM_ORDER = ['ops', 'guards', 'faults', 'chart', 'cfg']
 RULE = ('well-formed chart with contracts reading __old__, history states, sends and delayed events; a seeded script of queue (with '
-        'delays) / clock advance / execute_once with drawn guard outcomes and some contract conditions made false; in a third of the runs a property statechart that reads its synchronised clock is bound and is part of the snapshot. The "crash" is a '
+        'delays) / clock advance / execute_once with drawn guard outcomes and some contract conditions made false; in a third of the runs a property statechart that reads its synchronised clock is bound and is part of the snapshot; in a quarter of the runs the clock is a started sismic SimulatedClock (speed 1, 2 or 1/2) fed by a scripted wall time. The "crash" is a '
         'snapshot (pickle.dumps+loads, and copy.deepcopy) taken at a macro-step boundary: at EVERY boundary b of the script (thorough) or 6 '
         'drawn boundaries (quick), and a second time a few steps later (restore, continue, crash again). The restored interpreter and the '
         'original are continued in lock-step and both must reproduce the undisturbed control run: macro steps, configurations, context, '
         'executed code with the __old__ values seen by conditions, exceptions. non-trivial = one (boundary, snapshot kind) whose '
         'continuation has >= 1 macro step; distinct = distinct (chart, script, boundary, kind)')
-COMPONENTS = {'real': common.REAL + ['pickle / copy.deepcopy of Interpreter, PythonEvaluator, Statechart, events'], 'stub': common.STUB}
+COMPONENTS = {'real': common.REAL + ['pickle / copy.deepcopy of Interpreter, PythonEvaluator, Statechart, events', 'sismic.clock.SimulatedClock (a quarter of the runs; its wall-time source is scripted per interpreter)', 'sismic.clock.SynchronizedClock and a bound property statechart (a third of the runs)'], 'stub': common.STUB}
 ASSUMPTIONS = common.ASSUME + ['snapshots are taken between calls to execute_once, never inside one',
                                'after a ContractError the run ends (the interpreter is documented to be in an undefined state)']
 LEVEL_TEXT = ('crash/restart fault enumeration: for each sampled (chart, script) every macro-step boundary is a crash point in the thorough '
@@ -52,12 +54,20 @@ def _mk_property(sc, clock, K=0):
     return Interpreter(sc, clock=clock, initial_context={'K': K})
 
 
+CUR = [None]     # the player whose wall clock the patched sismic.clock.clock.time() reads
+
+
+def _wall():
+    return CUR[0].wall
+
+
 class Player:
     """applies script operations to one interpreter and renders what happened"""
 
-    def __init__(self, it):
+    def __init__(self, it, wall=None):
         self.it = it
         self.dead = False
+        self.wall = wall        # not None: the interpreter runs on a started sismic SimulatedClock fed by this scripted wall time
 
     @property
     def P(self):
@@ -65,6 +75,10 @@ class Player:
 
     def play(self, op):
         it = self.it
+        CUR[0] = self
+        if op[0] == 'advance' and self.wall is not None:
+            self.wall += op[1]
+            return None
         if op[0] == 'queue':
             kw = {'uid': op[3]}
             if op[2] is not None:
@@ -96,31 +110,51 @@ class Player:
         return (sig(ms), it.configuration, ctx, exc, P.log[mark:], it.time, it.final)
 
 
-def fresh(sp, cond_truth, echoes=(), watch=None):
+def fresh(sp, cond_truth, echoes=(), watch=None, realclock=None):
     P = Probe()
     P.cond_truth = dict(cond_truth)
     sc = build_api(sp)
     for name, attr, text in echoes:
         setattr(sc.state_for(name), attr, text)
-    it = Interpreter(sc, clock=SimClock(), initial_context={'P': P}, ignore_contract=False)
+    pl = Player(None, wall=1000.0 if realclock else None)
+    CUR[0] = pl
+    if realclock:
+        clock = SimulatedClock()
+        clock.speed = realclock
+        clock.start()
+    else:
+        clock = SimClock()
+    it = Interpreter(sc, clock=clock, initial_context={'P': P}, ignore_contract=False)
+    pl.it = it
     if watch is not None:
         import functools
         it.bind_property_statechart(TIMEWIRE, interpreter_klass=functools.partial(_mk_property, K=watch))
-    return Player(it)
+    return pl
 
 
 PROTOCOL = [None]
 
 
 def snapshot(player, kind):
+    CUR[0] = player
     if kind == 'pickle':
         it2 = pickle.loads(pickle.dumps(player.it, protocol=PROTOCOL[0]))
     else:
         it2 = copy.deepcopy(player.it)
-    return Player(it2)
+    return Player(it2, wall=player.wall)
 
 
 def run(ch, tier):
+    saved = clockmod.time
+    clockmod.time = _wall
+    try:
+        return _run(ch, tier)
+    finally:
+        clockmod.time = saved
+        CUR[0] = None
+
+
+def _run(ch, tier):
     res = Result()
     cfg = swarm(ch.s('cfg'), Cfg(contracts=True, bump=True, sends=True, delays=True, history=True), tier)
     if ch.s('cfg').flag(1, 2):      # history gadgets: the remembered sub-configuration is part of the durable state
@@ -145,8 +179,13 @@ def run(ch, tier):
     watch = fs.pick([1, 2, 5, 8, 12]) if fs.flag(1, 3) else None
     if watch is not None:
         res.stats['runs_with_a_bound_time_reading_property_statechart'] += 1
+    # in a quarter of the runs the interpreter runs on sismic's own SimulatedClock, started, at a drawn speed, fed by a wall
+    # time the simulator scripts per interpreter (a snapshot inherits the wall time of the interpreter it was taken from)
+    realclock = fs.pick([1, 2, 0.5]) if fs.flag(1, 4) else None
+    if realclock:
+        res.stats['runs_on_a_running_SimulatedClock'] += 1
     # ---------------- control run; the script is drawn while it executes
-    control = fresh(sp, cond_truth, echoes, watch)
+    control = fresh(sp, cond_truth, echoes, watch, realclock)
     script, outs = [], []
     n = ops.int(4, 25 if tier == 'quick' else 40)
     uid = 0
@@ -180,7 +219,7 @@ def run(ch, tier):
     cfp = fp((sp.fingerprint(), [repr(o) for o in script]))
     for b in bounds:
         for kind in ('pickle', 'deepcopy'):
-            orig = fresh(sp, cond_truth, echoes, watch)
+            orig = fresh(sp, cond_truth, echoes, watch, realclock)
             for i in range(b):
                 orig.play(script[i])
             try:
@@ -230,5 +269,5 @@ def run(ch, tier):
                     res.stats['runs_with_text_shared_by_statement_and_condition'] += 0 if b != bounds[0] or kind != 'pickle' else 1
                 if res.sample is None:
                     res.sample = {'chart': sp.describe()[:14], 'script': [repr(o)[:70] for o in script][:14], 'boundary': b, 'kind': kind}
-    res.sim_time = float(control.it.clock._t)
+    res.sim_time = float(control.it.time)
     return res
